@@ -165,7 +165,8 @@ def gen_view_request(rng):
     elif kind == "urlenc":
         body, ct = rng.choice([b"a=1&b=2&a=3", b"x=%E4%B8%AD&y=+", b"", "city=Zürich&n=中".encode()]), "application/x-www-form-urlencoded"
     elif kind == "urlenc-charset":
-        body, ct = "k=é".encode("utf-8"), rng.choice(["application/x-www-form-urlencoded; charset=utf-8", "application/x-www-form-urlencoded; charset=nonsense"])
+        body = rng.choice(["k=é".encode("utf-8"), b"k=caf%E9&x=%D6%D0", b"k=caf\xe9&y=%C3%A9", b"a=%FF"])  # raw bytes and percent-escapes, in and out of the declared charset
+        ct = "application/x-www-form-urlencoded; charset=" + rng.choice(["utf-8", "nonsense", "latin-1", "gbk", "cp1252", "", "ascii"])
     elif kind == "multipart":
         form = MC.gen_form(rng)
         if rng.random() < 0.5:
@@ -328,6 +329,28 @@ def check_router(ctx, rng):
         ctx.case(("router", tuple(routes), path))
 
 
+def check_nested_routers(ctx, rng):
+    """a Router as the endpoint of another Router's route (both match the full path): the inner endpoint's parameters are
+    those of the inner route; also a Router below a Subpaths mount and a Subpaths below a Router route"""
+    from baize import asgi, wsgi
+    shape = rng.choice(["router-in-router", "router-in-mount", "mount-in-router"])
+    path = rng.choice(["/api/ping", "/api/7", "/api/x/y", "/api", "/api/", "/other", "/api/é"])
+    obs = {}
+    for iface, ns in (("wsgi", wsgi), ("asgi", asgi)):
+        if shape == "router-in-router":
+            inner = ns.Router(("/api/ping", leaf(ns, iface, "ping")), ("/api/{n:int}", leaf(ns, iface, "num")), ("/api/{name}/{sub}", leaf(ns, iface, "two")))
+            app = ns.Router(("/api/{rest:any}", inner), ("/{top}", leaf(ns, iface, "top")))
+        elif shape == "router-in-mount":
+            inner = ns.Router(("/ping", leaf(ns, iface, "ping")), ("/{n:int}", leaf(ns, iface, "num")), ("/{name}/{sub}", leaf(ns, iface, "two")), ("", leaf(ns, iface, "empty")))
+            app = ns.Subpaths(("/api", inner), ("", leaf(ns, iface, "default")))
+        else:
+            inner = ns.Subpaths(("/api/x", leaf(ns, iface, "x")), ("/api", leaf(ns, iface, "api")))
+            app = ns.Router(("/api/{rest:any}", inner), ("/{top}", leaf(ns, iface, "top")))
+        obs[iface] = observe(iface, app, drivers.Req(path=path.encode("utf-8")))
+    compare(ctx, "routing", {"kind": shape, "path": path}, obs["wsgi"], obs["asgi"])
+    ctx.case((shape, path))
+
+
 def check_mounts(ctx, rng):
     from baize import asgi, wsgi
     table = mount_gen.make_table(rng, 1)
@@ -369,9 +392,11 @@ def check_static(ctx, rng, apps, validators):
     elif r < 0.5 and v:
         hdrs.append(("If-None-Match", rng.choice([v[0], "W/" + v[0], f'"x", {v[0]}', "*", '"other"', ""])))
         if rng.random() < 0.5:
-            hdrs.append(("If-Modified-Since", rng.choice([v[1], "Wed, 21 Oct 2015 07:28:00 GMT", "junk"])))
+            hdrs.append(("If-Modified-Since", rng.choice([v[1], "Wed, 21 Oct 2015 07:28:00 GMT", "junk", "Fri, 01 Jan 2100 00:00:00 GMT"])))
+        if rng.random() < 0.15:
+            hdrs.append(("Range", rng.choice(["bytes=0-1", "bytes=1-"])))
     elif r < 0.6 and v:
-        hdrs.append(("If-Modified-Since", rng.choice([v[1], "Wed, 21 Oct 2015 07:28:00 GMT"])))
+        hdrs.append(("If-Modified-Since", rng.choice([v[1], "Wed, 21 Oct 2015 07:28:00 GMT", "Fri, 01 Jan 2100 00:00:00 GMT"])))
     method = rng.choice(["GET", "GET", "HEAD"])
     req = drivers.Req(method=method, path=path.encode("utf-8"), headers=hdrs, query=rng.choice([b"", b"v=1"]))
     obs = {iface: observe(iface, apps[(iface, kind)], req) for iface in ("wsgi", "asgi")}
@@ -432,6 +457,7 @@ def run(ctx):
     # ---- routing
     for i in range(ctx.scale(300, 30_000)):
         check_router(ctx, rng)
+        check_nested_routers(ctx, rng)
         check_mounts(ctx, rng)
         check_hosts(ctx, rng)
     ctx.sample("routing", {"kind": "Router", "routes": ["/{p0:int}", "/{p0}"], "path": "/é"})
